@@ -150,6 +150,12 @@ def scramble(h, codes, trace=None, warmup=None):
       5  (needs a warm-up callable) replace one hyperedge by another on existing nodes (same
          counts), ask the module's queries once (results discarded), then restore the
          hyperedge: a result cached by the library during the warm-up is stale afterwards
+      6  add a new isolated node Z, ask the module's queries once when a warm-up callable is
+         given (results discarded), then remove_node(Z): the node set changed twice without
+         any hyperedge changing
+      7  (Hypergraph / DirectedHypergraph) a REJECTED bulk removal: remove_edges([missing, e])
+         with an existing hyperedge e listed after one that is not there; the error is caught
+         (e is inserted again should the call have removed it)
     Nodes, hyperedges, weights and metadata are the same before and after.
     """
     kind = type(h).__name__
@@ -160,7 +166,11 @@ def scramble(h, codes, trace=None, warmup=None):
         z = fresh_label(nodes)
         edges = list(h.get_edges())
         a = sorted(nodes, key=repr)[0]
-        code = code % 6
+        code = code % 8
+        if code == 7 and kind not in ("Hypergraph", "DirectedHypergraph"):
+            code = 6
+        if code == 6 and z is None:
+            code = 4
         if code == 5 and (warmup is None or kind not in ("Hypergraph", "DirectedHypergraph")):
             code = 4
         step = None
@@ -189,6 +199,35 @@ def scramble(h, codes, trace=None, warmup=None):
                 h.remove_edge(other)
                 h.add_edge(e, **(dict(weight=w) if h.is_weighted() else {}), metadata=m)
                 step = "replace %r by %r, query, restore" % (e, other)
+        elif code == 6:
+            h.add_node(z)
+            if warmup is not None:
+                try:
+                    warmup(h)
+                except Violation:
+                    raise
+                except Exception:  # noqa: the warm-up only populates caches
+                    pass
+            h.remove_node(z)
+            step = "add_node(%r), query, remove_node(%r)" % (z, z)
+        elif code == 7 and edges and len(nodes) >= 2:
+            import itertools
+            e = edges[-1]
+            w, m = h.get_weight(e), h.get_edge_metadata(e)
+            ns = sorted(nodes, key=repr)
+            if kind == "Hypergraph":
+                cands = (c for r in (2, 3, 1) for c in itertools.combinations(ns, r))
+            else:
+                cands = (((x,), (y,)) for x in ns for y in ns if x != y)
+            other = next((c for c in cands if not h.check_edge(c)), None)
+            if other is not None:
+                try:
+                    h.remove_edges([other, e])
+                except (KeyError, ValueError):
+                    pass
+                if not h.check_edge(e):
+                    h.add_edge(e, **(dict(weight=w) if h.is_weighted() else {}), metadata=m)
+                step = "rejected remove_edges([%r (missing), %r])" % (other, e)
         elif code == 4 and edges:
             e = edges[0]
             try:
@@ -295,7 +334,7 @@ def history_codes(*parts):
     if int(d[0], 16) < 8:
         return []
     n = 1 + int(d[1], 16) % 3
-    return [int(c, 16) % 6 for c in d[2:2 + n]]
+    return [int(c, 16) % 8 for c in d[2:2 + n]]
 
 
 def with_history(build_fn=None, warmup=None):
